@@ -17,11 +17,11 @@ CLAIMS = {
                 note="source-level; zeroize's volatile semantics, exact-size collect not reallocating, and unwind paths (noted, not claimed) are outside", ref="3.7, 4 C14"),
     "C03": dict(cat="other", tech="abstract interpretation of the curve formulas' MIR in the FORMULA domain (rational functions over Z in symbolic coordinates, lib/eng_formula.py) + flag dominance, call-identity data flow, field-wise completeness (FIELDSET) over resolved MIR; visibility facts",
                 text="Formulas (FORMULA domain, field kernels = ring operations, never entered): ProjectivePoint::double, EdwardsPoint +- ProjectiveNiels / AffineNiels, the completed / projective / extended conversions, as_projective_niels, as_affine_niels, negations, identity elements, "
-                     "EdwardsPoint double / add / sub / neg, and the AVX2 ExtendedPoint double / +- CachedPoint, CachedPoint::from, -CachedPoint, conversions and identity constants (lane-wise) all denote the point given by the twisted Edwards addition law as rational identities "
+                     "EdwardsPoint double / add / sub / neg, and the AVX2 ExtendedPoint double / +- CachedPoint, CachedPoint::from, -CachedPoint, conversions and identity constants (lane-wise; the AVX-512 IFMA counterparts in the thorough tier) all denote the point given by the twisted Edwards addition law as rational identities "
                      "(doubling modulo the curve equation) with X*Y = Z*T; compress encodes Y/Z with the sign of X/Z; decompress calls sqrt_ratio_i(y^2-1, d y^2+1) and returns (+-r, y, 1, xy) by bit 255. "
                      "Structural clauses: decoder = sqrt_ratio_i(y^2-1, d*y^2+1) with its flag deciding Some, sign from input bit 255, T=X*Y after negation; encoder = as_bytes(Y/Z) with is_negative(X/Z) in bit 255; "
                      "projective equality shape; every field-wise writer/selector of an EdwardsPoint touches all four coordinates consistently; identity/neg/cofactor/small-order/torsion-free wiring; coordinates and internal modules not public. "
-                     "NOT decided: that the field kernels implement the ring operations (C01/C11), completeness of the addition law on this curve (cited theorem), the IFMA vector formulas, equality semantics beyond its shape",
+                     "NOT decided: that the field kernels implement the ring operations (C01/C11), completeness of the addition law on this curve (cited theorem), equality semantics beyond its shape",
                 note="formulas decided at the level of field elements; structural conditions in every backend", ref="10.6 FORMULA, 3.6, 4 C03"),
     "C07": dict(cat="other", tech="known-bits abstract interpretation of clamp_integer (complete) + polynomial-multiple abstract domain over the Montgomery ladder (LADDER) + PATH rules over resolved MIR",
                 text="clamp_integer is bit-exactly RFC 7748 clamping (decided completely); all clamped entry points multiply by Scalar{clamp(input)}; x25519-dalek reaches multiplications only through mul_clamped/mul_base_clamped with the documented shapes; "
@@ -31,7 +31,7 @@ CLAIMS = {
                 text="raw_sign / raw_sign_prehashed: r = H([dom2(1,ctx)] prefix||M), R = compress(mul_base(r)), k = H([dom2] R||A||M), s = k*a + r, signature (R,s); context > 255 rejected before hashing (and in Context::new); "
                      "expansion = from_bytes(SHA-512(seed)) with scalar = reduce(clamp(bytes[0..32])), prefix = bytes[32..64]; SigningKey only assembled with the verifying key derived from the same seed; sign wiring uses the key's own seed and verifying key; "
                      "keypair / pkcs8 import reject a mismatching public half. Equality with RFC 8032 outputs on all inputs is not decided",
-                note="partial/structural; SHA-512 and scalar/point arithmetic trusted (C02/C04)", ref="3.6, 4 C08"),
+                note="partial/structural; SHA-512 and scalar/point arithmetic trusted (C02/C04). Added (C08.sem.sign, BATCHEQ models on symbolic seed / key / message): try_sign returns (compress(rB), ka + r) with a = clamp(H(seed)[0..32]) mod l, prefix = H(seed)[32..64], r = H(prefix||M), k = H(R||A||M)", ref="3.6, 4 C08, 10.6"),
     "C17": dict(cat="other", tech="exhaustive arithmetic on evaluated ff constants + PATH rules (dominance, flag implication, delegation identity)",
                 text="ff constants satisfy their defining relations incl. generator of full order (factorisation of l-1 verified) and the Tonelli-Shanks exponent literal; from_repr = canonical decoder; from_repr_vartime: high-bit test and equality with reduce dominate Some; "
                      "Field::invert None only for zero; GroupEncoding for EdwardsPoint/SubgroupPoint = native decoder (+ into_subgroup); into_subgroup flag = torsion-free predicate; clear_cofactor = x8; SubgroupPoint constructors inventory. sqrt correctness on all residues is delegated to ff's helper (trusted)",
@@ -57,7 +57,7 @@ CLAIMS = {
                 text="Decides necessary conditions only, NOT exactness of mul_internal / montgomery_reduce / add / sub (value-level; stated as not decided): every montgomery_reduce call reachable from the public Scalar API receives a value < l*R "
                      "(so its single conditional subtraction is canonical), u64 and u32; the inversion chain raises to l-2; every raw construction Scalar{bytes} in the three crates is of a reviewed kind and every pack() receives the output of a reducing kernel; "
                      "from_canonical_bytes' flag depends on is_canonical = ct_eq(self, reduce(self)); integer conversions write the little-endian bytes at offset 0 of a zeroed array",
-                note="partial; relies on A1/A2 and on the constants decided by C12", ref="10.6"),
+                note="partial; relies on A1/A2 and on the constants decided by C12. Added (C02.mont, MONT domain): every public scalar operation (mul, add, sub, neg, reduce, invert, UnpackedScalar mul / square / as_montgomery) returns the plain value with no stray factor of the Montgomery radix, batch_invert inverts every entry and returns the inverse of the product", ref="10.6"),
     "C04": dict(cat="other", tech="formal-linear-combination abstract domain over the scalar-multiplication routines (LINCOMB) + may-write / may-read index analysis of the digit arrays (ABSINT)",
                 text="Decides necessary conditions only, NOT that the result equals the sum of s_i*P_i (the group law and the numerical exactness of the recodings are stated as not decided): "
                      "in the linear-combination domain (group operations by their algebraic meaning, symbolic digits, lookup tables computed from their own constructors) variable-base, the five basepoint tables (create + mul_base), vartime double-base, "
@@ -69,7 +69,8 @@ CLAIMS = {
     "C05": dict(cat="other", tech="dispatch-site rule (arm completeness, same-name sibling, argument order) + set comparison of the exported API across backend configurations",
                 text="Decides necessary conditions only, NOT byte-equality of outputs across configurations (relational, value-level; stated as not decided): each of the 9 run-time dispatchers has one arm per compiled backend kind and every arm forwards the dispatcher's own parameters "
                      "in order to the same-named routine of that backend's module; the exported API (paths + signatures outside backend::) is identical across simd / serial64 / serial32 / fiat64 (thorough: + fiat32, ifma, no-tables pairs). "
-                     "Per-configuration facts it rests on are decided elsewhere: constants (C12), limb invariants (C11), digit coverage of every copy (C04)",
+                     "Per-configuration facts it rests on are decided elsewhere: constants (C12), limb invariants (C11), digit coverage and the linear combination computed by every copy of every algorithm (C04 LINCOMB: serial and AVX2 copies evaluate to the same sum 2^(wi) d_i P), "
+                     "and the curve formulas of every backend (C03 formula: serial u64 / u32, AVX2, IFMA all denote the same addition law)",
                 note="partial; the surface comparison is on resolved items of each configuration's own compilation", ref="10.6"),
     "C12": dict(cat="proof", tech="exhaustive comparison of compiler-evaluated constants with an independent big-integer oracle (static: no repository code run)",
                 text="Every const/static of the three crates (field, scalar, point, table, vector-lane and ff constants), as evaluated by rustc and decoded by type layout, "
@@ -78,7 +79,7 @@ CLAIMS = {
     "C09": dict(cat="other", tech="must-pass-through dominance + data-dependence over resolved MIR (PATH engine)",
                 text="Every success exit of every verification entry point (discovered, 14) is dominated by: canonical-S conversion, byte comparison of recompute_R with the signature's R, and for strict the R-decoding and both small-order rejections; "
                      "recompute_R/compute_challenge wiring and hash order incl. dom2 prefix; legacy rule (mask 224 on the input byte 31) only under legacy_compatibility; VerifyingKey point/compressed invariant. Structural: the value-level correctness of the double-base multiplication is C04's",
-                note="decides the acceptance *structure*, not arithmetic; refactors that move a check into a new helper with argument predicates fail closed (documented)", ref="3.6, 4 C09"),
+                note="decides the acceptance structure on all 14 entry points and, for verify / verify_strict on a symbolic key, message and signature (C09.sem, BATCHEQ models): the single comparison is compress(sB - H(R||A||M)A) against the signature's R bytes with s the canonical scalar of bytes 32..64; a false comparison, a failing S decoding, (strict) an undecodable R or a small-order hit give Err only; small-order tests on the decoded R and on A; Ok reachable. Refactors that move a check into a new helper with argument predicates fail closed (documented)", ref="3.6, 4 C09, 10.6"),
     "C06": dict(cat="other", tech="abstract interpretation of the ristretto255 formulas in the FORMULA domain (rational functions over Z, one run per sign scenario, inverse square roots opaque) + flag-to-decision dominance over Choice implications + data-dependence (PATH engine)",
                 text="Formulas (C06.formula, 14 scenarios per backend): decode computes x = |2 s Dx|, y = u1 Dy, (x, y, 1, xy) with I = invsqrt(v u2^2), v = -d u1^2 - u2^2, u1 = 1 - s^2, u2 = 1 + s^2; encode takes invsqrt(u1 u2^2), tests the signs of T z_inv, x z_inv and s and emits |den_inv (Z - y)| with the RFC 9496 rotation "
                      "(i X, i Y, i1 / sqrt(a - d)) in all eight sign scenarios; the element-derivation map calls sqrt_ratio_i((r+1)(1-d^2), (-1-dr)(r+d)) and returns (2sD/(N_t sqrt(ad-1)), (1-s^2)/(1+s^2)) with the RFC's choice of s and c in all three scenarios; equality compares X1Y2 with Y1X2 and X1X2 with Y1Y2. "
@@ -122,7 +123,8 @@ m = {
         {"name": "LINCOMB", "path": "lib/eng_lincomb.py", "serves_properties": ["C04"], "kind_free_text": "formal linear combinations (coefficient x symbolic digit x symbolic point) on the generic MIR interpreter"},
         {"name": "LADDER", "path": "lib/eng_ladder.py", "serves_properties": ["C07"], "kind_free_text": "multilinear-polynomial multiples of the base point over symbolic scalar bits, on the generic MIR interpreter"},
         {"name": "FORMULA", "path": "lib/eng_formula.py lib/formula_rules.py", "serves_properties": ["C03", "C06", "C07", "C01"], "kind_free_text": "rational functions over Z in symbolic coordinates with ring transfer functions for the field kernels, lane-wise for AVX2; identities by polynomial normalisation (modulo the curve equation for doubling)"},
-        {"name": "BATCHEQ", "path": "lib/eng_batcheq.py", "serves_properties": ["C13"], "kind_free_text": "scalar polynomials and polynomial combinations of points over symbolic batches, on the generic MIR interpreter"},
+        {"name": "MONT", "path": "lib/eng_mont.py", "serves_properties": ["C02"], "kind_free_text": "FORMULA fractions with the Montgomery radix as a symbol; transfer functions for mul_internal / montgomery_reduce / from_montgomery / montgomery_invert"},
+        {"name": "BATCHEQ", "path": "lib/eng_batcheq.py lib/sig_rules.py", "serves_properties": ["C13", "C08", "C09"], "kind_free_text": "scalar polynomials and polynomial combinations of points over symbolic batches, on the generic MIR interpreter"},
         {"name": "PATH", "path": "lib/mirlib.py lib/pathlib2.py lib/ex.py", "serves_properties": [p for p in ["C03", "C06", "C07", "C08", "C09", "C13", "C16", "C17"] if p in CLAIMS],
          "kind_free_text": "dominance (edge-removal reachability), value-flow slices, expression trees, ORDER, guard implication"},
     ],
